@@ -1,7 +1,7 @@
 (* C05 — Result models are as strict as the schema.  Property theorems only. *)
 From Coq Require Import List String Ascii Bool ZArith.
 From AC Require Import Base.Strs Base.Sexp Base.Json Gql.Schema Gql.Exec Py.Ann Py.Pydantic
-     Model.Names Model.Results Proofs.ResultsP.
+     Model.Names Model.Results Proofs.ResultsP Proofs.ResultsRunP Proofs.ResultsAbsP Proofs.ResultsObjP Proofs.ResultsStrictP.
 Import ListNotations.
 Local Open Scope string_scope.
 Local Open Scope list_scope.
@@ -13,6 +13,74 @@ Definition C05_strict_full : Prop :=
     all_classes fuel C S frs (DOp kind name mixins sels) = Ok cls ->
     conf_op fuel S frs root sels j = false ->
     accepts fuel cls (schema_enums S) (AClass (pascal_s name)) j = false.
+
+(* ---- proved (object-level strictness, sub-language op_ok _ true + sels_strict): a payload that the
+        generated classes ACCEPT and COVER (every key of every object is a declared field: no key that
+        extra=ignore would silently drop) is a conformant response of the operation, where "conformant"
+        is Exec.v's conf_op with ONE change: the leaf predicate leaf_conf is replaced by
+        lax_leaf = leaf_conf || lax_exception (pydantic lax mode: Int accepts true / 1.0 / "12",
+        Float accepts true / "12", Boolean accepts 0 / 1 / "yes" / 1.0 ...; String, ID, enums and custom
+        scalars: nothing more).  Required keys, null at non-null, list structure, object shape, nested
+        objects at any depth and __typename literals are enforced exactly.
+        Guards beyond C01's (sels_strict): no __typename directly at the operation root (F29: plain str),
+        no @skip/@include on a field of non-null type (its added Optional also admits an explicit null),
+        every custom scalar used is configured (otherwise the annotation is Any, which admits null).
+        "ev P": P holds at every sufficiently large fuel of the conformance checker. ---- *)
+Theorem C05_strict_partial :
+  forall C S frs fuel kind name sels root own pub' cls g gs j n,
+    root_type_name S kind = Ok root ->
+    op_parse fuel C S frs kind name [] sels = Ok (own, pub', false) ->
+    all_classes fuel C S frs (DOp kind name [] sels) = Ok cls ->
+    op_ok g true C S frs root sels = true -> sels_strict gs C S frs false root sels = true ->
+    no_basemodel own = true ->
+    accepts n cls (schema_enums S) (AClass (pascal_s name)) j = true ->
+    covers n cls (AClass (pascal_s name)) j = true ->
+    exists fc0, forall fc, fc >= fc0 -> conf_op_gen lax_leaf false fc S frs root sels j = true.
+Proof. exact op_strict. Qed.
+Print Assumptions C05_strict_partial.
+
+(* the same, read as a rejection: not lax-conformant (at any fuel) and no undeclared key => rejected *)
+Theorem C05_strict_partial_rejects :
+  forall C S frs fuel kind name sels root own pub' cls g gs j n,
+    root_type_name S kind = Ok root ->
+    op_parse fuel C S frs kind name [] sels = Ok (own, pub', false) ->
+    all_classes fuel C S frs (DOp kind name [] sels) = Ok cls ->
+    op_ok g true C S frs root sels = true -> sels_strict gs C S frs false root sels = true ->
+    no_basemodel own = true ->
+    (forall fc, conf_op_gen lax_leaf false fc S frs root sels j = false) ->
+    covers n cls (AClass (pascal_s name)) j = true ->
+    accepts n cls (schema_enums S) (AClass (pascal_s name)) j = false.
+Proof. exact op_strict_rejects. Qed.
+Print Assumptions C05_strict_partial_rejects.
+
+(* at the level of one generated class, any depth below it *)
+Theorem C05_object_strict :
+  forall C S frs fuel g gs nested pub cn tn sels tv out pub' cs kv n,
+    parse_type_def fuel C S frs pub cn tn sels false [] tv = Ok (out, pub', false) ->
+    sels_ok g true C S frs nested tn tn sels = true -> sels_strict gs C S frs nested tn sels = true ->
+    tv = (if nested then Some [tn] else None) -> table_ok cs out ->
+    accepts n cs (schema_enums S) (AClass cn) (JObj kv) = true ->
+    covers n cs (AClass cn) (JObj kv) = true ->
+    exists fc0, forall fc, fc >= fc0 ->
+      conf_obj_gen false (conf_val_gen lax_leaf false fc S frs) S tn
+                   (collect_scopes fc S frs tn [(false, sels)]) kv = true.
+Proof. exact obj_strict. Qed.
+Print Assumptions C05_object_strict.
+
+(* the lax relation is exactly Exec.v's relation plus the table: it contains every conformant
+   response, and on non-null values the generated scalar annotation accepts exactly lax_leaf *)
+Theorem C05_lax_contains_conformant :
+  forall fc S frs root sels j,
+    conf_op fc S frs root sels j = true -> conf_op_gen lax_leaf false fc S frs root sels j = true.
+Proof. exact conf_op_lax. Qed.
+Print Assumptions C05_lax_contains_conformant.
+
+Theorem C05_lax_table_exact :
+  forall C S clsacc enums n j, j <> JNull ->
+    acc_ann clsacc enums (fst (scalar_ann C n false)) j
+    = (leaf_conf S n DScalar j || lax_exception n j).
+Proof. exact scalar_leaf_exact. Qed.
+Print Assumptions C05_lax_table_exact.
 
 (* ---- the declared Python type is the image of the GraphQL type: Optional iff nullable, List iff
         list, the named type's annotation at the bottom — every wrapper depth, every schema ---- *)
@@ -93,3 +161,54 @@ Example C05_wrappers_nonvacuous :
   image_of (fun _ => Some AInt) (TNonNull (TList (TNonNull (TList (TNamed "Int")))))
     = Some (AList (AList (AOpt AInt))).
 Proof. split; reflexivity. Qed.
+
+(* ---- non-vacuity of C05_strict_partial: nested, aliased, list-wrapped, conditional nullable fields,
+        enum, __typename literal; an accepted payload with a lax leaf ("1" for Int), and rejected
+        corruptions (null at non-null, missing required key, foreign __typename, wrong kind) ---- *)
+Definition SY : schema :=
+  {| s_types := [("Query", DObject [] [("users", TNonNull (TList (TNonNull (TNamed "User"))))]);
+                 ("User", DObject [] [("id", TNonNull (TNamed "ID")); ("fullName", TNamed "String");
+                                      ("role", TNonNull (TNamed "Role")); ("address", TNamed "Address")]);
+                 ("Address", DObject [] [("city", TNonNull (TNamed "String")); ("zip", TNamed "Int")]);
+                 ("Role", DEnum ["ADMIN"; "USER"]);
+                 ("Int", DScalar); ("String", DScalar); ("ID", DScalar); ("Boolean", DScalar)];
+     s_query := Some "Query"; s_mutation := None; s_subscription := None |}.
+Definition selsY : list sel :=
+  [SField (Some "people") "users" false []
+     (Some [SField None "__typename" false [] None; SField None "id" false [] None;
+            SInline (Some "User") false
+              [SField (Some "name") "fullName" true [] None; SField None "role" false [] None];
+            SField (Some "homeAddress") "address" false []
+              (Some [SField None "city" false [] None; SField None "zip" true [] None])])].
+Definition userY (tn : json) (id : json) (addr : json) : json :=
+  JObj [("people", JArr [JObj [("__typename", tn); ("id", id); ("role", JStr "ADMIN"); ("homeAddress", addr)]])].
+
+Example C05_partial_hypotheses_satisfiable :
+  exists own pub' cls,
+    root_type_name SY "query" = Ok "Query" /\
+    op_parse 10 C0 SY [] "query" "GetPeople" [] selsY = Ok (own, pub', false) /\
+    all_classes 10 C0 SY [] (DOp "query" "GetPeople" [] selsY) = Ok cls /\
+    op_ok 10 true C0 SY [] "Query" selsY = true /\ sels_strict 10 C0 SY [] false "Query" selsY = true /\
+    no_basemodel own = true /\
+    (* accepted and covered, with a lax Int leaf *)
+    (let j := userY (JStr "User") (JStr "1") (JObj [("city", JStr "X"); ("zip", JStr "12")]) in
+     accepts 11 cls (schema_enums SY) (AClass (pascal_s "GetPeople")) j = true /\
+     covers 11 cls (AClass (pascal_s "GetPeople")) j = true /\
+     conf_op 10 SY [] "Query" selsY j = false /\
+     conf_op_gen lax_leaf false 10 SY [] "Query" selsY j = true) /\
+    (* corruptions are rejected *)
+    accepts 11 cls (schema_enums SY) (AClass (pascal_s "GetPeople"))
+            (userY (JStr "User") JNull (JObj [("city", JStr "X")])) = false /\
+    accepts 11 cls (schema_enums SY) (AClass (pascal_s "GetPeople"))
+            (userY (JStr "User") (JStr "1") (JObj [("zip", JInt 1)])) = false /\
+    accepts 11 cls (schema_enums SY) (AClass (pascal_s "GetPeople"))
+            (userY (JStr "Droid") (JStr "1") JNull) = false /\
+    accepts 11 cls (schema_enums SY) (AClass (pascal_s "GetPeople"))
+            (userY (JStr "User") (JStr "1") (JArr [])) = false.
+Proof.
+  do 3 eexists.
+  split; [reflexivity|].
+  split; [vm_compute; reflexivity|].      (* instantiates own, pub' *)
+  split; [vm_compute; reflexivity|].      (* instantiates cls *)
+  vm_compute. repeat split.
+Qed.
